@@ -4,6 +4,7 @@ import (
 	"github.com/bokysan/socketace/v2/internal/streams"
 	"github.com/miekg/dns"
 	"github.com/pkg/errors"
+	"github.com/xtaci/smux"
 	log "github.com/sirupsen/logrus"
 	"io"
 	"net"
@@ -189,6 +190,10 @@ func (sc *NetConnectionClientCommunicator) SendAndReceive(m *dns.Msg, timeout *t
 		sc.Client.Timeout = *timeout
 	}
 	r, rtt, err = sc.Client.ExchangeWithConn(m, sc.Conn)
+	if ne, ok := err.(net.Error); ok && ne.Timeout() {
+		// Callers retry on exactly this value
+		return nil, rtt, smux.ErrTimeout
+	}
 	err = errors.Wrapf(err, "Could not send packet %v %q to server", dns.Type(m.Question[0].Qtype), m.Question[0].Name)
 	return
 }
